@@ -1,7 +1,12 @@
 (* C20 — correspondence cases.  Every case carries the inputs and the implementation's observations (the two
    internal variants called directly + the public entry point).  check_corr: model = implementation, variant by
    variant.  check_spec: the property's specification (Spec.v) on the public observation + "the alternative
-   implementations return identical results". *)
+   implementations return identical results".
+   Round 3: CTwice wraps a case whose routine was called TWICE ON THE SAME ARGUMENT OBJECTS: `first` / `again` carry the
+   observations of the two calls, `ins` the harness' snapshots of every argument array (element kind code :: values)
+   before the first call, after the first and after the second.  The models are pure functions, so "model =
+   implementation" includes: the arguments are left as they were and the second call observes what the first did.
+   CAnd: a pipeline case (the output of one routine fed into the next one / into the same one again). *)
 From Coq Require Import ZArith QArith Qround Qabs Bool List.
 Require Import QV.common.Util QV.C20.Model QV.C20.Spec.
 Import ListNotations.
@@ -20,6 +25,8 @@ Inductive case :=
 | CTimes (rate : Q) (durs : list Q) (o : outcome (list Q * list Z))
 | CSample (chans : list (option chan_cfg)) (markers : list (option Z)) (rate : Q) (wfs : list wf_obs)
           (o : outcome (list sampled))
+| CTwice (first again : case) (ins : list (list (list Q)))
+| CAnd (c1 c2 : case)
 | CCrash.
 
 Definition volt_eqb := outcome_eqb Zlist_eqb.
@@ -55,15 +62,45 @@ Definition volt_tol_corr (amp off : Q) (res : Z) (vs : list Q) (model obs : outc
   | _, _ => false
   end.
 
-Definition check_corr (c : case) : bool :=
+(* every snapshot equals the first one: no argument array was modified (values or element kind) *)
+Definition unchanged (ins : list (list (list Q))) : bool :=
+  match ins with
+  | [] => false
+  | s0 :: r => forallb (list_eqb Qlist_eqb s0) r
+  end.
+
+Definition sample_obs_eqb : outcome (list sampled) -> outcome (list sampled) -> bool := outcome_eqb (list_eqb sampled_eqb).
+
+(* the observations (not the inputs) of two cases of the same kind are identical *)
+Definition same_obs (a b : case) : bool :=
+  match a, b with
+  | CVolt _ _ _ _ a1 a2 a3, CVolt _ _ _ _ b1 b2 b3 => volt_eqb a1 b1 && volt_eqb a2 b2 && volt_eqb a3 b3
+  | CVoltTol _ _ _ _ a1 a2 a3, CVoltTol _ _ _ _ b1 b2 b3 => volt_eqb a1 b1 && volt_eqb a2 b2 && volt_eqb a3 b3
+  | CMono _ a1 a2 a3, CMono _ b1 b2 b3 => Bool.eqb a1 b1 && Bool.eqb a2 b2 && Bool.eqb a3 b3
+  | CWin _ _ a1 a2 a3, CWin _ _ b1 b2 b3 => win_eqb a1 b1 && win_eqb a2 b2 && win_eqb a3 b3
+  | CShrink _ a1 a2 a3, CShrink _ b1 b2 b3 => shrink_eqb a1 b1 && shrink_eqb a2 b2 && shrink_eqb a3 b3
+  | CAvg _ _ _ _ a1 a2 a3, CAvg _ _ _ _ b1 b2 b3 => avg_eqb a1 b1 && avg_eqb a2 b2 && avg_eqb a3 b3
+  | CNni _ a1, CNni _ b1 => nni_eqb a1 b1
+  | CTimes _ _ a1, CTimes _ _ b1 => times_eqb a1 b1
+  | CSample _ _ _ _ a1, CSample _ _ _ _ b1 => sample_obs_eqb a1 b1
+  | _, _ => false
+  end.
+
+Fixpoint check_corr (c : case) : bool :=
   match c with
+  | CTwice first again ins => check_corr first && same_obs first again && unchanged ins
+  | CAnd c1 c2 => check_corr c1 && check_corr c2
   | CVoltTol amp off res vs o_np o_loop o_pub =>
       volt_tol_corr amp off res vs (volt_numpy amp off res vs) o_np && volt_tol_corr amp off res vs (volt_loop amp off res vs) o_loop
       && volt_tol_corr amp off res vs (volt_public amp off res vs) o_pub
   | CVolt amp off res vs o_np o_loop o_pub =>
       if res <? 1 then volt_eqb OErr o_pub        (* the internal variants are only meaningful behind the guard *)
-      else volt_eqb (volt_numpy amp off res vs) o_np && volt_eqb (volt_loop amp off res vs) o_loop
-           && either volt_eqb (volt_numpy amp off res vs) (volt_loop amp off res vs) o_pub
+      else if 16 <? res then                       (* behind the guard too, but their uint16 wrap-around is modelled *)
+        volt_eqb OErr o_pub
+        && (if 30 <? res then true        (* codes >= 2^31: the conversion is no longer "mod 2^16" (observed: 0) *)
+            else volt_eqb (volt_numpy16 amp off res vs) o_np && volt_eqb (volt_loop16 amp off res vs) o_loop)
+      else volt_eqb (volt_numpy16 amp off res vs) o_np && volt_eqb (volt_loop16 amp off res vs) o_loop
+           && either volt_eqb (volt_numpy16 amp off res vs) (volt_loop16 amp off res vs) o_pub
   | CMono xs o_np o_loop o_pub =>
       Bool.eqb (mono_numpy xs) o_np && Bool.eqb (mono_loop xs) o_loop
       && either Bool.eqb (mono_numpy xs) (mono_loop xs) o_pub
@@ -83,13 +120,17 @@ Definition check_corr (c : case) : bool :=
   | CCrash => false
   end.
 
-Definition check_spec (c : case) : bool :=
+(* "does not depend on earlier calls": the second call on the same argument objects returns what the first returned
+   (in particular it meets the specification again), and no argument was modified. *)
+Fixpoint check_spec (c : case) : bool :=
   match c with
+  | CTwice first again ins => check_spec first && same_obs first again && unchanged ins
+  | CAnd c1 c2 => check_spec c1 && check_spec c2
   | CVoltTol amp off res vs o_np o_loop o_pub =>
       spec_volt_tol amp off res vs o_pub && volt_eqb o_np o_loop && volt_eqb o_np o_pub
   | CVolt amp off res vs o_np o_loop o_pub =>
       spec_volt amp off res vs o_pub
-      && (if res <? 1 then true else volt_eqb o_np o_loop && volt_eqb o_np o_pub)
+      && (if res <? 1 then true else if 16 <? res then volt_eqb o_np o_loop else volt_eqb o_np o_loop && volt_eqb o_np o_pub)
   | CMono xs o_np o_loop o_pub =>
       Bool.eqb (sortedb xs) o_pub && Bool.eqb o_np o_loop
   | CWin sr ws o_np o_loop o_pub =>
